@@ -182,7 +182,10 @@ func (h Handler) ServeHTTP(w http.ResponseWriter, r *http.Request) (int, error) 
 			// Write the response body
 			_, err = io.Copy(w, resp.Body)
 			if err != nil {
-				return http.StatusBadGateway, err
+				// the header (and maybe part of the body) has been
+				// written: report the error, but no status for the
+				// handlers above to answer with a second time
+				return 0, err
 			}
 
 			// Log any stderr output from upstream
